@@ -214,6 +214,21 @@ func c11Servers() []c11Server {
 		}
 		cres = append(cres, e)
 	}
+	// a backend with no collection at all, and one with a single bare collection holding one bare object
+	calUniverse := []qname{dav("resourcetype"), dav("current-user-principal"), {nsCal, "calendar-home-set"}, dav("displayname"), {nsCal, "max-resource-size"}, dav("getetag"), dav("unknown-prop-x"), {"urn:foreign", "color"}, {"urn:foreign", "getetag"}}
+	out = append(out, c11Server{Name: "caldav-empty", Handler: func() http.Handler {
+		return &caldav.Handler{Backend: &harness.CalBackend{Principal: "/u/", HomeSet: "/u/c/"}}
+	}, Resources: cres[:3], Universe: calUniverse})
+	{
+		single := append([]resExpect(nil), cres[:3]...)
+		single = append(single, cres[4]) // /u/c/k2/ (bare collection)
+		bare := cres[len(cres)-1]        // o2.ics has no optional values
+		bare.Path, bare.Parent = "/u/c/k2/only.ics", "/u/c/k2/"
+		single = append(single, bare)
+		out = append(out, c11Server{Name: "caldav-single", Handler: func() http.Handler {
+			return &caldav.Handler{Backend: &harness.CalBackend{Principal: "/u/", HomeSet: "/u/c/", Calendars: cals[1:], Objects: []caldav.CalendarObject{{Path: "/u/c/k2/only.ics", Data: harness.SampleCalendar("9", "only")}}}}
+		}, Resources: single, Universe: calUniverse})
+	}
 	out = append(out, c11Server{Name: "caldav", Handler: func() http.Handler {
 		return &caldav.Handler{Backend: &harness.CalBackend{Principal: "/u/", HomeSet: "/u/c/", Calendars: cals, Objects: cobjs}}
 	}, Resources: cres, Universe: []qname{dav("resourcetype"), dav("current-user-principal"), {nsCal, "calendar-home-set"}, dav("displayname"), {nsCal, "max-resource-size"}, dav("getetag"), dav("unknown-prop-x"), {"urn:foreign", "color"}, {"urn:foreign", "getetag"}}})
@@ -536,7 +551,7 @@ func init() {
 				sig := fmt.Sprintf("C11/%s/%s.%s%s.form=%s", clause, sv.Name, c11Level(sv, c.Target), dep, c.Form)
 				if clause == "scope-missing-resource" && c.Target == "/" && c.Depth != "0" && strings.Contains(detail, `got [/]`) {
 					// one root cause: the discovery root answers for itself only, whatever the Depth
-					sig = fmt.Sprintf("C11/scope-missing-resource/%s.root-answers-depth-0-only", sv.Name)
+					sig = fmt.Sprintf("C11/scope-missing-resource/%s.root-answers-depth-0-only", strings.SplitN(sv.Name, "-", 2)[0])
 				}
 				s.Violate(engine.Violation{Sig: sig, Clause: clause, Index: int64(i), Kind: "C11", Case: c,
 					Expected: "207, well-formed, scope by Depth, each requested property exactly once (200 value / 404 empty)", Observed: detail})
